@@ -274,7 +274,7 @@ func c07Drive(dst ivg.Destination, acts []act7, after func(i int, err error)) {
 func c07Run(c *run.Ctx, idx uint64, exact bool) {
 	r := c.Rng(idx)
 	vb, pal, acts, interesting := c07History(c, r, exact)
-	rect := image.Rect(0, 0, r.Range(1, 300), r.Range(1, 300)).Add(image.Pt(r.Intn(40), r.Intn(40)))
+	rect := image.Rect(0, 0, r.Range(1, 300), r.Range(1, 300)).Add(image.Pt(r.Range(-30, 40), r.Range(-30, 40)))
 	useLogger := r.Chance(1, 12)
 	h := uint64(0)
 	for i := range acts {
